@@ -1,7 +1,6 @@
 import Chain33Model.Model.C18
 import Chain33Model.Proofs.C18
 import Chain33Model.Proofs.C18Comp
-import Mathlib.Tactic.Ring
 /-!
 C18 helper lemmas for the inclusion branch computed by `Computation` (flage with bit 2 set):
 the block decomposition extended with the branch bookkeeping for one position `p`.
@@ -158,9 +157,9 @@ theorem branchStep_spec {inner : List β} {level k : Nat} {P' B S : List β} {h 
       have hdiv : p / 2 ^ level = 2 * k + 1 := by
         unfold InBlk at hin
         apply div_of_inBlk (len := S.length) _ _ hS
-        · have : (2 * k + 1) * 2 ^ level = k * 2 ^ (level + 1) + 2 ^ level := by rw [hpow]; ring
+        · have : (2 * k + 1) * 2 ^ level = k * 2 ^ (level + 1) + 2 ^ level := by rw [hpow]; grind
           omega
-        · have : (2 * k + 1) * 2 ^ level = k * 2 ^ (level + 1) + 2 ^ level := by rw [hpow]; ring
+        · have : (2 * k + 1) * 2 ^ level = k * 2 ^ (level + 1) + 2 ^ level := by rw [hpow]; grind
           omega
       have : p / 2 ^ level % 2 = 1 := by omega
       simp only [this, if_true]
@@ -185,9 +184,9 @@ theorem branchStep_spec {inner : List β} {level k : Nat} {P' B S : List β} {h 
         have hdiv : p / 2 ^ level = 2 * k := by
           unfold InBlk at hin
           apply div_of_inBlk (len := 2 ^ level) _ _ (Nat.le_refl _)
-          · have : 2 * k * 2 ^ level = k * 2 ^ (level + 1) := by rw [hpow]; ring
+          · have : 2 * k * 2 ^ level = k * 2 ^ (level + 1) := by rw [hpow]; grind
             omega
-          · have : 2 * k * 2 ^ level = k * 2 ^ (level + 1) := by rw [hpow]; ring
+          · have : 2 * k * 2 ^ level = k * 2 ^ (level + 1) := by rw [hpow]; grind
             omega
         have : ¬ p / 2 ^ level % 2 = 1 := by omega
         simp only [this, if_false]
@@ -365,7 +364,7 @@ theorem tailLoop_branch :
       have hlt := level_lt_of_forest nil H2 (ForestB.toForest nil H2 hF) (by omega) hPlen
       have hpow : 2 ^ (level + 1) = 2 * 2 ^ level := by rw [Nat.pow_succ]; omega
       have hcnt1 : count + 2 ^ level = (q + 1) * 2 ^ (level + 1) := by
-        rw [hcnt, hpow]; ring
+        rw [hcnt, hpow]; grind
       have hh1 : H2 h h = top nil H2 (level + 1) S := by rw [hh, top_pad nil H2 level S hne hS]
       -- the state after the optional `branch = append(branch, h)`
       have hst1 : ∃ st1 : CState β, (if matchh = true then { st with branch := st.branch ++ [h] } else st) = st1 ∧
